@@ -215,6 +215,66 @@ def _mirror_wiring(method: int, include_drf: bool, include_dmd: bool) -> bool:
     return ok
 
 
+import datetime as _dt
+_ST = _dt.datetime(2020, 1, 1, tzinfo=_dt.timezone.utc); _EN = _dt.datetime(2020, 1, 2, tzinfo=_dt.timezone.utc)
+
+
+def _mirror_start(method: int, ignore_existing: bool, include_drf: bool, include_dmd: bool, has_src: bool) -> bool:
+    """
+    pre: 0 <= method <= 2 and (include_drf or include_dmd)
+    post: _
+    """
+    # DigitalRFMirror.start(): property files are always listed (per the include flags), data / metadata files of the window only unless
+    # ignore_existing; every listed path is dispatched as a creation event to EVERY handler, in handler order, without time matching
+    class NoObs:
+        def __init__(self, *a, **k): self.started = 0
+        def schedule(self, *a, **k): pass
+        def start(self): self.started += 1
+    old = (MIR.watchdog_drf.DirWatcher, MIR.list_drf, MIR.os)
+    MIR.watchdog_drf.DirWatcher = NoObs
+    name = 'copy' if method == 0 else ('move' if method == 1 else 'link')
+    calls = []
+    class LD:
+        @staticmethod
+        def ilsdrf(path, **kw):
+            calls.append(kw)
+            if kw.get('include_drf') or kw.get('include_dmd'): return iter(['/s/ch/2020-01-01T00-00-00/rf@1.000.h5', '/s/ch/metadata/2020-01-01T00-00-00/md@1.h5'])
+            return iter(['/s/ch/drf_properties.h5'])
+    try:
+        m = MIR.DigitalRFMirror('/s', '/d', method=name, ignore_existing=ignore_existing, include_drf=include_drf, include_dmd=include_dmd, starttime=_ST, endtime=_EN)
+        log = []
+        class Rec:
+            def __init__(self, k): self.k = k
+            def dispatch(self, event, match_time=True): log.append((self.k, type(event).__name__, event.src_path, match_time))
+        nh = len(m.event_handlers)
+        m.event_handlers = [Rec(k) for k in range(nh)]
+        class FOS:
+            class path:
+                @staticmethod
+                def isdir(p): return has_src
+        MIR.list_drf = LD; MIR.os = FOS
+        MIR.print = lambda *a, **k: None
+        class Out:
+            @staticmethod
+            def write(s_): pass
+            @staticmethod
+            def flush(): pass
+        MIR.sys = type('S', (), {'stdout': Out})
+        m.start()
+    finally:
+        MIR.watchdog_drf.DirWatcher, MIR.list_drf, MIR.os = old
+    if m.observer.started != 1: return False
+    if not has_src: return calls == [] and log == []
+    want_calls = [dict(include_drf=False, include_dmd=False, include_drf_properties=include_drf, include_dmd_properties=include_dmd)]
+    paths = ['/s/ch/drf_properties.h5']
+    if not ignore_existing:
+        want_calls.append(dict(starttime=m.starttime, endtime=m.endtime, include_drf=include_drf, include_dmd=include_dmd, include_drf_properties=False, include_dmd_properties=False))
+        paths += ['/s/ch/2020-01-01T00-00-00/rf@1.000.h5', '/s/ch/metadata/2020-01-01T00-00-00/md@1.h5']
+    if calls != want_calls or m.starttime != _ST or m.endtime != _EN: return False
+    want_log = [(k, 'FileCreatedEvent', p_, False) for p_ in paths for k in range(nh)]
+    return log == want_log
+
+
 # ------------------------------------------------------------------ drf cp / mv / ln (C18)
 
 class Args:
